@@ -1,6 +1,7 @@
 package props
 
 import (
+	"bytes"
 	"fmt"
 
 	"github.com/pion/rtp"
@@ -146,6 +147,13 @@ func c01Oracle(c *mc.Ctx, p *rtp.Packet, ww *wireBox) {
 	}
 	if d := compareHeader(&h, w); d != "" {
 		c.Failf("header-roundtrip-differs", "%s: after Header.Marshal/Unmarshal: %s", describeWire(w), d)
+	}
+	// serialising is repeatable and leaves the value as it was
+	if b2, err := p.Marshal(); err != nil || !bytes.Equal(b2, b) || p.MarshalSize() != size {
+		c.Failf("marshal-not-repeatable", "%s: a second Marshal gives %s (err %v, MarshalSize %d), the first gave %s", describeWire(w), hx(b2), err, p.MarshalSize(), hx(b))
+	}
+	if d := comparePacket(p, w); d != "" {
+		c.Failf("marshal-changed-the-packet", "%s: after Marshal the packet itself differs: %s", describeWire(w), d)
 	}
 	if w.X || w.PadSize > 0 {
 		c.NonTrivial()
